@@ -992,3 +992,37 @@ V("C10", "benign-lock-moved-into-run", C,
     "        with self.lock:\n            return self._run(input_dict, name)\n\n    def _run(self, input_dict, name):\n        if name not in self.cache:\n            # This was the first call.\n            self._add_dict(input_dict, name)\n            return input_dict\n\n        self._remove_dead_reminders(input_dict, name)"),
    ("    with _wn.lock:\n        return _wn.run(input_dict, name)", "    return _wn.run(input_dict, name)")],
   "silent")
+
+# ----------------------------------------------------------------- benign refactors (must stay silent)
+V("C11", "benign-unix-path-len-gt", L,
+  ("path = tokens[7].rstrip('\\n') if len(tokens) == 8 else ''",
+   "path = tokens[7].rstrip('\\n') if len(tokens) > 7 else ''"), "silent")
+V("C11", "benign-unix-rename-pairs", L,
+  [("                    pairs = inodes[inode]\n", "                    refs = inodes[inode]\n"),
+   ("                    pairs = [(None, -1)]\n                for pid, fd in pairs:",
+    "                    refs = [(None, -1)]\n                for pid, fd in refs:")], "silent")
+V("C11", "benign-inet-status-ternary", L,
+  ("                    if type_ == socket.SOCK_STREAM:\n                        status = TCP_STATUSES[status]\n                    else:\n                        status = _common.CONN_NONE\n",
+   "                    status = (\n                        TCP_STATUSES[status]\n                        if type_ == socket.SOCK_STREAM\n                        else _common.CONN_NONE\n                    )\n"),
+  "silent")
+V("C11", "benign-inet-inode-get", L,
+  ("                if inode in inodes:\n                    # # We assume inet sockets are unique, so we error",
+   "                if inodes.get(inode):\n                    # # We assume inet sockets are unique, so we error"),
+  "silent")
+V("C11", "benign-retrieve-rename-slots", L,
+  [("            for fd, family, type_, laddr, raddr, status, bound_pid in ls:\n                if pid:\n                    conn = _common.pconn(\n                        fd, family, type_, laddr, raddr, status\n                    )\n                else:\n                    conn = _common.sconn(\n                        fd, family, type_, laddr, raddr, status, bound_pid\n                    )",
+    "            for fd, fam, typ, laddr, raddr, status, owner in ls:\n                if pid:\n                    conn = _common.pconn(fd, fam, typ, laddr, raddr, status)\n                else:\n                    conn = _common.sconn(\n                        fd, fam, typ, laddr, raddr, status, owner\n                    )")],
+  "silent")
+V("C11", "benign-inodes-rename-and-slice", L,
+  [("                inode = readlink(f\"{self._procfs_path}/{pid}/fd/{fd}\")",
+    "                target = readlink(f\"{self._procfs_path}/{pid}/fd/{fd}\")"),
+   ("                if inode.startswith('socket:['):\n                    # the process is using a socket\n                    inode = inode[8:][:-1]\n                    inodes[inode].append((pid, int(fd)))",
+    "                if target.startswith('socket:['):\n                    # the process is using a socket\n                    inodes[target[8:-1]].append((pid, int(fd)))")],
+  "silent")
+V("C11", "inodes-wrong-slice", L,
+  ("                    inode = inode[8:][:-1]\n", "                    inode = inode[7:][:-1]\n"),
+  "fires:C11.R4")
+V("C11", "retrieve-slots-swapped", L,
+  ("                        fd, family, type_, laddr, raddr, status, bound_pid\n                    )",
+   "                        fd, family, type_, raddr, laddr, status, bound_pid\n                    )"),
+  "fires:C11.R4")
